@@ -319,7 +319,7 @@ func runScenario(d *Driver, sc Scenario, timeout time.Duration, oracle bool, res
 	crumb("scenario "+sc.ID, describeScenario(sc))
 	// a scenario in which nothing has a lifetime reads the same at every second: a clock tick
 	// during one of its steps does not taint it
-	clockFree := true
+	clockFree := sc.Stack.L1 != "chunked" // (the chunking handler stamps the time into the metadata it writes)
 	for _, s := range sc.Steps {
 		if s.Kind != "feed" && s.Kind != "evict" {
 			clockFree = false
@@ -676,13 +676,27 @@ func (g *Gen) Flags() uint32 {
 func (g *Gen) Value(keyLen int, maxChunks int) []byte {
 	p := 1184 - 71 - keyLen - 16
 	var n int
-	switch g.r.Intn(8) {
+	switch g.r.Intn(9) {
 	case 0:
 		n = 0
 	case 1:
 		n = 1 + g.r.Intn(8)
 	case 2:
 		n = g.r.Intn(200)
+	case 3:
+		// around the sizes of the I/O buffers between client, proxy and backends (a value that,
+		// with its headers, just fits / just overflows a 4 KiB bufio buffer or a 64 KiB length
+		// field), and a few sizes in between
+		switch g.r.Intn(6) {
+		case 0, 1:
+			n = 4096 - g.r.Intn(120) + g.r.Intn(8)
+		case 2:
+			n = 8192 - g.r.Intn(120) + g.r.Intn(8)
+		case 3:
+			n = 65536 - g.r.Intn(4) + g.r.Intn(40)
+		default:
+			n = 4000 + g.r.Intn(16000)
+		}
 	default:
 		k := 1 + g.r.Intn(maxChunks)
 		n = k*p + g.r.Intn(3) - 1
